@@ -29,6 +29,9 @@ pub enum Kind {
     /// a handshake ACK carrying the nonce of the latest SYN-ACK the server sent to ANOTHER address (what an attacker
     /// who owns that other address can learn and replay under a spoofed source)
     CrossAck { from: u8 },
+    /// a slow drip: `count` minimum-size frames of the given kind (as in TinyBurst), one every `every_ms` (below and
+    /// around the 2 s resend interval), for minutes - nothing an unverified address sends may keep its handshake alive
+    Drip { kind: u8, count: u16, every_ms: u16 },
 }
 
 #[derive(Clone, Debug, Serialize, Deserialize)]
@@ -88,6 +91,7 @@ fn kind_strategy() -> impl Strategy<Value = Kind> {
         1 => (proptest::collection::vec(any::<u8>(), 0..60), any::<bool>()).prop_map(|(bytes, fix_crc)| Kind::Raw { bytes, fix_crc }),
         3 => (prop_oneof![3 => 0u8..6, 2 => Just(6u8)], prop_oneof![1u16..20, 20u16..400]).prop_map(|(kind, count)| Kind::TinyBurst { kind, count }),
         2 => (0u8..5).prop_map(|from| Kind::CrossAck { from }),
+        1 => (0u8..6, prop_oneof![20u16..120, 120u16..400], prop_oneof![Just(1000u16), Just(1500u16), Just(1900u16), 300u16..2500]).prop_map(|(kind, count, every_ms)| Kind::Drip { kind, count, every_ms }),
     ]
 }
 
@@ -133,7 +137,7 @@ impl Check for C18 {
     }
 
     fn rule(&self) -> String {
-        "case = a real Server (limits 1..3 or 200, generated packet-size / allocation settings so that some requests are refused) with generated active-timeout (1 s .. 1 h, or 2^32-1 ms), keepalive and rate settings, and up to five spoofable source addresses sending, in a generated interleaving (one datagram in five is read in the same server step as the next one) with waits of 0..60 s (during some of which the server application stalls, i.e. does not step at all) and a final wait of up to 12 minutes (so that all SYN-ACK resends and the pending-entry expiry are observed, however the server is configured): handshake ACKs carrying the nonce of the latest SYN-ACK the server sent to ANOTHER of the addresses (what the owner of that address can replay under a spoofed source), well-formed padded SYNs (also wrong version, extreme limits), repeats of the previous SYN, SYN-typed frames of every length below 1472 with a valid checksum, handshake ACKs with arbitrary nonces, frames of every other type, bursts of up to 400 minimum-size frames (10..15 bytes) one per step - among them data frames numbered upwards from the nonce of the address's own SYN, as a real client's first frames would be -, raw bytes. One case in four hundred begins with a crowd: 40..1040 further addresses send one well-formed request each within one server step and never answer (the server then has the default limits, so that hundreds of handshakes are pending at once), and the final wait is at least 2 or 10 minutes. No address ever completes the handshake. One case in three with three or more SYN-ACK nonces is run a second time under another random stream: the differences between the nonces of a run must not all be the same in both runs (nonces that are a function of address, time and one secret can be computed by whoever sees one of them). Oracle after every server step: no address is ever reported as connected; per address: bytes sent to it are 0 or strictly less than the bytes received from it; a datagram that is not a full-size SYN produces no reply at all, and copies of a SYN-ACK are never less than 2 s apart. Non-trivial = the server sent at least one byte to an unverified address. Distinct = distinct serialised case.".into()
+        "case = a real Server (limits 1..3 or 200, generated packet-size / allocation settings so that some requests are refused) with generated active-timeout (1 s .. 1 h, or 2^32-1 ms), keepalive and rate settings, and up to five spoofable source addresses sending, in a generated interleaving (one datagram in five is read in the same server step as the next one) with waits of 0..60 s (during some of which the server application stalls, i.e. does not step at all) and a final wait of up to 12 minutes (so that all SYN-ACK resends and the pending-entry expiry are observed, however the server is configured): handshake ACKs carrying the nonce of the latest SYN-ACK the server sent to ANOTHER of the addresses (what the owner of that address can replay under a spoofed source), well-formed padded SYNs (also wrong version, extreme limits), repeats of the previous SYN, SYN-typed frames of every length below 1472 with a valid checksum, handshake ACKs with arbitrary nonces, frames of every other type, bursts of up to 400 minimum-size frames (10..15 bytes) one per step - among them data frames numbered upwards from the nonce of the address's own SYN, as a real client's first frames would be -, raw bytes, slow drips of 20-400 minimum-size frames spaced 0.3-2.5 s apart (minutes of them). One case in four hundred begins with a crowd: 40..1040 further addresses send one well-formed request each within one server step and never answer (the server then has the default limits, so that hundreds of handshakes are pending at once), and the final wait is at least 2 or 10 minutes. No address ever completes the handshake. One case in three with three or more SYN-ACK nonces is run a second time under another random stream: the differences between the nonces of a run must not all be the same in both runs (nonces that are a function of address, time and one secret can be computed by whoever sees one of them). Oracle after every server step: no address is ever reported as connected; per address: bytes sent to it are 0 or strictly less than the bytes received from it; a datagram that is not a full-size SYN produces no reply at all, and copies of a SYN-ACK are never less than 2 s apart. Non-trivial = the server sent at least one byte to an unverified address. Distinct = distinct serialised case.".into()
     }
 
     fn assumptions(&self) -> Vec<String> {
@@ -266,6 +270,35 @@ fn run_with_rng(c: &Case, rng_seed: u64, nonces_out: &mut Vec<(std::net::SocketA
         for op in c.ops.iter() {
             let a = raw_addr(op.addr as u32);
             let mut full_syn = false;
+            if let Kind::Drip { kind, count, every_ms } = &op.kind {
+                classes.push("drip_of_small_frames");
+                let frame: Vec<u8> = match kind % 6 {
+                    0 => Frame::DataFrame(DataFrame { sequence_id: 0, nonce: false, datagrams: vec![] }).write().to_vec(),
+                    1 => Frame::SyncFrame(SyncFrame { next_frame_id: None, next_packet_id: None }).write().to_vec(),
+                    2 => Frame::AckFrame(AckFrame { frame_window_base_id: 0, packet_window_base_id: 0, frame_acks: vec![] }).write().to_vec(),
+                    3 => Frame::DisconnectFrame(DisconnectFrame {}).write().to_vec(),
+                    4 => Frame::DisconnectAckFrame(DisconnectAckFrame {}).write().to_vec(),
+                    _ => Frame::HandshakeAckFrame(HandshakeAckFrame { nonce_ack: 1 }).write().to_vec(),
+                };
+                let coarse = step_us.max(100_000);
+                for _ in 0..*count {
+                    w.send_raw(a, w.server_addr, &frame, 0);
+                    *rx.entry(a).or_insert(0) += frame.len() as u64;
+                    let mut waited = 0u64;
+                    while waited < *every_ms as u64 * 1000 {
+                        w.advance(coarse);
+                        waited += coarse;
+                        w.step_server();
+                        if let Some(v) = account(&w, &mut seen_wire, &mut tx, &rx) {
+                            return CaseResult { violation: Some(v), nontrivial: true, classes };
+                        }
+                    }
+                }
+                if tx.get(&a).copied().unwrap_or(0) > 0 {
+                    replied = true;
+                }
+                continue;
+            }
             if let Kind::TinyBurst { kind, count } = &op.kind {
                 classes.push("tiny_burst");
                 let syn_nonce = last_syn.get(&op.addr).and_then(|b| if let Some(Frame::HandshakeSynFrame(f)) = Frame::read(b) { Some(f.nonce) } else { None });
@@ -346,7 +379,7 @@ fn run_with_rng(c: &Case, rng_seed: u64, nonces_out: &mut Vec<(std::net::SocketA
                         bytes.clone()
                     }
                 }
-                Kind::TinyBurst { .. } => unreachable!(),
+                Kind::TinyBurst { .. } | Kind::Drip { .. } => unreachable!(),
                 Kind::CrossAck { from } => {
                     let other = raw_addr(*from as u32);
                     let nonce = w.wire.iter().rev().find_map(|r| if r.to == other && r.from == w.server_addr { if let Some(Frame::HandshakeSynAckFrame(f)) = Frame::read(&r.bytes) { Some(f.nonce) } else { None } } else { None });
